@@ -56,6 +56,28 @@ func docOf(members ...string) string { return "{" + strings.Join(members, ",") +
 
 func c16Check(c *C16Case) string {
 	switch c.Family {
+	case "rawsplit":
+		// observed through lengths and an in-program re-join (JSON cannot carry the bytes)
+		prog := "BEGIN { s = \"" + c.S + "\"; sep = \"" + c.Sep + "\"; p = s.split(sep); j = \"\"; n = 0\n" +
+			"for (x, i in p) { if (i > 0) j = j + sep; j = j + x; n = n + x.length() }\n" +
+			"print p.length(), n, j == s, s.length() }"
+		o := run.InProc(prog, nil, nil, run.Opts{Budget: implBudget})
+		if o.Class != "ok" {
+			return fmt.Sprintf("%q.split(%q): outcome %s (%s%s)", c.S, c.Sep, o.Class, o.Msg, o.Panic)
+		}
+		want := strings.Split(c.S, c.Sep)
+		total := 0
+		for _, w := range want {
+			total += len(w)
+		}
+		exp := fmt.Sprintf("%d %d true %d\n", len(want), total, len(c.S))
+		if c.S == "" && c.Sep == "" {
+			return "" // the pieces of the empty string under the empty separator: not asserted
+		}
+		if string(o.Stdout) != exp {
+			return fmt.Sprintf("%q.split(%q): pieces / total piece bytes / pieces joined with the separator == receiver / receiver bytes: got %q, want %q", c.S, c.Sep, o.Stdout, exp)
+		}
+		return ""
 	case "string":
 		doc := docOf(`"s":`+gen.JSONString(c.S), `"sep":`+gen.JSONString(c.Sep))
 		// (an earlier result of the same split is modified first: every call builds its own result)
@@ -333,10 +355,23 @@ func c16String() *rapid.Generator[string] {
 }
 
 func genC16(t *rapid.T) (*C16Case, []string) {
-	fam := rapid.SampledFrom([]string{"string", "string", "number", "number", "pluck", "num"}).Draw(t, "family")
+	fam := rapid.SampledFrom([]string{"string", "string", "number", "number", "pluck", "num", "rawsplit"}).Draw(t, "family")
 	c := &C16Case{Family: fam}
 	var labels []string
 	switch fam {
+	case "rawsplit":
+		// any bytes (also bytes that are not UTF-8) as a string literal of the program
+		n := rapid.IntRange(0, 7).Draw(t, "rawlen")
+		b := make([]byte, n)
+		for k := range b {
+			ch := rapid.SampledFrom([]byte{'a', 'b', ',', 0xff, 0xc3, 0xa9, 0xe6, 0x97, 0xa5, 0x80, 0xf0, ' ', 'Z'}).Draw(t, "rawbyte")
+			b[k] = ch
+		}
+		c.S = string(b)
+		c.Sep = rapid.SampledFrom([]string{"", "", ",", "a", "\xff", "\xc3"}).Draw(t, "rawsep")
+		if !utf8.ValidString(c.S) {
+			labels = append(labels, "invalid-utf8-receiver", "nontrivial")
+		}
 	case "string":
 		c.S = c16String().Draw(t, "s")
 		switch rapid.IntRange(0, 5).Draw(t, "sepkind") {
@@ -492,7 +527,7 @@ func genC16Misuse(t *rapid.T) *DCase {
 
 func TestC16(t *testing.T) {
 	rec := start(t, "C16", "exploration",
-		"contract families with direct oracles: strings (ASCII, multi-byte, arbitrary valid UTF-8; separators empty, 1-3 bytes, equal to the string, substrings, overlapping like \"aaa\".split(\"aa\")): length = byte count, upper/lower = Unicode case mapping + an independent ASCII table + idempotence + receiver unchanged, split = no piece contains sep AND join == s AND equality with the greedy split (empty sep: the UTF-8 characters), also right after an earlier result of the same call was modified; numbers (halves of both signs, 0.49999999999999994, +-(2^52+0.5), >= 2^53, tiny, strata): floor/ceil/round checked with exact rational arithmetic (math/big), halves away from zero; pluck: objects x key lists with present, absent, repeated, numeric and method-named keys -> exact model, receiver unchanged, length = key count; num(s): numeric strings -> nearest double (exact rational oracle), non-numeric -> null, exotic not asserted; misuse: every method and builtin x receivers of every kind x 0-3 arguments of every kind -> value or RuntimeError (and equal to refjq where specified). Non-trivial per family: separator >= 2 times or at an end, multi-byte text; |x| with fraction .5 or >= 2^52; key list mixing present/absent or repeated; numeric string. distinct = distinct case.")
+		"contract families with direct oracles: strings (ASCII, multi-byte, arbitrary valid UTF-8; separators empty, 1-3 bytes, equal to the string, substrings, overlapping like \"aaa\".split(\"aa\")): length = byte count, upper/lower = Unicode case mapping + an independent ASCII table + idempotence + receiver unchanged, split = no piece contains sep AND join == s AND equality with the greedy split (empty sep: the UTF-8 characters; for receivers given as raw bytes of the program text, also not UTF-8: piece count, total piece bytes and in-program re-join), also right after an earlier result of the same call was modified; numbers (halves of both signs, 0.49999999999999994, +-(2^52+0.5), >= 2^53, tiny, strata): floor/ceil/round checked with exact rational arithmetic (math/big), halves away from zero; pluck: objects x key lists with present, absent, repeated, numeric and method-named keys -> exact model, receiver unchanged, length = key count; num(s): numeric strings -> nearest double (exact rational oracle), non-numeric -> null, exotic not asserted; misuse: every method and builtin x receivers of every kind x 0-3 arguments of every kind -> value or RuntimeError (and equal to refjq where specified). Non-trivial per family: separator >= 2 times or at an end, multi-byte text; |x| with fraction .5 or >= 2^52; key list mixing present/absent or repeated; numeric string. distinct = distinct case.")
 	defer rec.Finish()
 	rec.Assume("Go's unicode tables for non-ASCII case mapping; math/big for exact arithmetic; json() as the observation device (its own correctness is C04's subject)")
 	rec.Replayer("contract", func(raw json.RawMessage) error {
